@@ -44,7 +44,8 @@ def required(tier):
                     'metadata:non-ascii-text', 'naming:pattern:index-in-directory',
                     'naming:pattern:zero-padded',
                     'layout:associated-parts-cut-at-other-boundaries',
-                    'layout:inputs-are-symbolic-links-to-equally-named-files'],
+                    'layout:inputs-are-symbolic-links-to-equally-named-files',
+                    'open:relative-path-then-chdir'],
         'counters': {'seam_reads': 50, 'beyond_end_reads': 10, 'id_lookups': 50},
         'evaluations': 300,
     }
@@ -185,10 +186,20 @@ def one_merge(rng, workdir: Path, rec, k):
     except Exception as e:  # noqa: BLE001
         raise Mismatch('valid merge raised', {'error': f'{type(e).__name__}: {e}', **case})
     small = rng.random() < 0.4
+    # the merged store opened through a path relative to the working directory, which the
+    # program changes afterwards (before any look-up)
+    rel_open = rng.random() < 0.2
+    cwd0 = os.getcwd()
     try:
-        st = TrajectoryStore.open(base_file=out,
+        if rel_open:
+            os.chdir(d)
+            rec.cls('open:relative-path-then-chdir')
+        st = TrajectoryStore.open(base_file=Path(out.name) if rel_open else out,
                                    cache_size_mb=1.5 * max_nb / (1024 * 1024) if small else 64, **kw)
+        if rel_open:
+            os.chdir(workdir)
     except Exception as e:  # noqa: BLE001
+        os.chdir(cwd0)
         raise Mismatch('the merged store cannot be opened',
                        {'error': f'{type(e).__name__}: {str(e)[:200]}', 'metadata': meta_kw,
                         **case})
@@ -267,6 +278,7 @@ def one_merge(rng, workdir: Path, rec, k):
             'cache:' + ('small' if small else 'large'),
             f'combo:{"P" if pattern else "L"}{"I" if with_ids else "-"}'
             f'{"A" if with_assoc else "-"}{"s" if small else "-"}:{min(nin, 3)}+')
+    os.chdir(cwd0)
     shutil.rmtree(d, ignore_errors=True)
     return case
 
@@ -458,6 +470,7 @@ def run_shard(spec, rec):
             except Mismatch as m:
                 rec.violation(m.mechanism, m.detail, {'spec': dict(spec), 'k': 'many'})
             return
+        cwd_start = os.getcwd()
         ks = [spec['only']] if 'only' in spec else range(spec['n'])
         for k in ks:
             for part, fn in (('merge', one_merge), ('refusals', refusals),
@@ -475,5 +488,7 @@ def run_shard(spec, rec):
                     m.detail['part'] = part
                     rec.violation(m.mechanism, m.detail,
                                   {'spec': {'seed': spec['seed'], 'n': spec['n']}, 'k': k})
+                finally:
+                    os.chdir(cwd_start)
     finally:
         shutil.rmtree(workdir, ignore_errors=True)
